@@ -207,6 +207,16 @@ func (l *Lifter) brBlock(stmts []ast.Stmt, cur *rcur, counts map[string]*countVa
 					}
 				} else if cls == "struct" && d.T["wirelen(at)"] != 0 {
 					l.fail("cursor", cur.pendingRec, s.Pos(), "after the nested struct %s the cursor moves by %s, but a struct carries no length prefix", cur.pendingRec, d)
+				} else if cls == "struct" && len(d.T) == 0 {
+					// a constant step is right only for a struct of exactly that fixed size
+					size, fixed := -1, false
+					if l.RecFixed != nil {
+						size, fixed = l.RecFixed(cur.pendingType)
+					}
+					if !fixed || size != d.C {
+						l.fail("cursor", cur.pendingRec, s.Pos(), "after the nested struct %s the cursor moves by the constant %d; the struct %s", cur.pendingRec, d.C,
+							map[bool]string{true: sprintf("occupies %d bytes", size), false: "has no fixed size (it holds a string, an array, a map or a record with a length)"}[fixed])
+					}
 				}
 			}
 			cur.pendingRec = ""
